@@ -209,7 +209,7 @@ def gen_value(rng, ptype, enum_name, hard=False):
     def gstr():
         k = rng.random()
         if k < 0.25:
-            return rng.choice(["", "a", "b", "ab", "1", "test", "True", "None"])
+            return rng.choice(["", "a", "b", "ab", "1", "test", "True", "None", "é", "café", "雪", "aé1"])
         n = rng.randint(1, 6 if not hard else 12)
         return "".join(rng.choice(SEP_ALPHABET) for _ in range(n))
 
@@ -431,6 +431,19 @@ def gen_universe(rng, n_roots=None, max_levels=3, rich=True, force_falsy=False):
         if mix and base is not None and rng.random() < 0.4:
             own = []      # `class C(A, M): pass`: everything is inherited, part of it through the second base
         classes.append(ClassSpec(cname, base, own, falsy=rng.random() < 0.15, slots=False, mixins=mix))
+    # at least one class that declares nothing itself and assembles its fields from two node bases (`class Z(A, Mx): pass`)
+    # whenever mixins exist: its accessors must be specialised for ITS field set, whichever base was used first
+    # (seeded change C14-9)
+    if mixin_names and not any(c.mixins and not c.own and c.base is not None for c in classes):
+        bases_ = [c for c in classes if c.name not in mixin_names and c.base is None and not c.mixins]
+        if bases_:
+            b0 = rng.choice(bases_)
+            zname = "Z" + tag
+            try:
+                Universe(classes + [ClassSpec(zname, b0.name, [], mixins=[mixin_names[0]])], enum_name, future, uid).linearize(zname)
+                classes.append(ClassSpec(zname, b0.name, [], falsy=False, mixins=[mixin_names[0]]))
+            except ValueError:
+                pass
     # a "permuted sibling": same field NAMES as an existing root class, other declaration order and other kinds
     # (single <-> tuple child, flags flipped): nothing specialised per class may be shared on the basis of field names
     if rich and rng.random() < 0.4:
